@@ -25,6 +25,9 @@ package c17
 import (
 	"encoding/json"
 	"fmt"
+	"github.com/blevesearch/bleve/v2/analysis"
+	"github.com/blevesearch/bleve/v2/analysis/datetime/flexible"
+	"github.com/blevesearch/bleve/v2/registry"
 	"math/rand"
 	"os"
 	"path/filepath"
@@ -232,6 +235,12 @@ func run(c *core.Ctx) error {
 		c.Sample(s)
 	}
 
+	// ---- 2a''. the date parser of the syntax is a configuration (query.QueryDateTimeParser,
+	// the model's constant ValidDates): the sentences with a date comparison once more, after
+	// the knob was turned to a parser that accepts only the full RFC 3339 time stamp
+	if err := k.altDateParserPass(); err != nil {
+		return err
+	}
 	// ---- 2b. Engine B: longer random strings judged by TLC
 	if err := k.randomJudged(); err != nil {
 		return err
@@ -246,6 +255,40 @@ func run(c *core.Ctx) error {
 	c.SetRule("query strings: every string over the 16 lexer-significant characters up to the tier's length bound (TLC state machine) + sentences of the documented grammar + seeded random longer strings judged by TLC; distinct = distinct non-blank input. JSON: every row of the (query type x optional keys) table, TLC-enumerated nested trees, sort keys and search requests; distinct = distinct case. Random byte strings (panic-only oracle) are counted as evaluations only")
 	c.SetExhaustive(true)
 	c.Extra("exhaustive_scope", "alphabet strings up to the length bound, the key table, the enumerated trees/sort keys/requests are complete enumerations; random strings and byte strings are seeded samples (exploration)")
+	return nil
+}
+
+var altParserOnce sync.Once
+
+const altParserName = "verif-rfc3339-only"
+
+func (k *checker) altDateParserPass() error {
+	altParserOnce.Do(func() {
+		registry.RegisterDateTimeParser(altParserName, func(config map[string]interface{}, cache *registry.Cache) (analysis.DateTimeParser, error) {
+			return flexible.New([]string{time.RFC3339}), nil
+		})
+	})
+	old := query.QueryDateTimeParser
+	query.QueryDateTimeParser = altParserName
+	defer func() { query.QueryDateTimeParser = old }()
+	if _, err := optionalParser("2020-01-02T03:04:05Z"); err != nil {
+		return fmt.Errorf("alternative date parser rejects the time stamp: %v", err)
+	}
+	if _, err := optionalParser("2020-01-02"); err == nil {
+		return fmt.Errorf("alternative date parser accepts the bare day, the model's StampOnlyDates says it does not")
+	}
+	var st qsStats
+	var wg sync.WaitGroup
+	ch := make(chan qsCase, 1024)
+	k.runQueryStrings(ch, "sentence under the alternative date parser", &wg, &st)
+	err := k.stringsFromTLC("QueryStringSentences", "QueryStringSentences_mc_altparser.cfg", 2, func(cs qsCase) { ch <- cs })
+	close(ch)
+	wg.Wait()
+	if err != nil {
+		return err
+	}
+	k.c.Logf("engine A: %d date sentences (%d accepted) replayed with query.QueryDateTimeParser = %s", st.total, st.accepted, altParserName)
+	k.c.Extra("date_sentences_alt_parser", st.total)
 	return nil
 }
 
